@@ -68,7 +68,7 @@ class Logger(CallSpec):
 
 
 _PLAN = {}
-YIELDS = ["False", "zero", "number", "op", "op_again", "op_raises", "stop", "raise", "True"]
+YIELDS = ["False", "zero", "number", "op", "op_again", "op_raises", "stop", "raise", "exit", "True"]
 
 
 def new_sched(b, tasks):
@@ -107,6 +107,9 @@ class Step(CallSpec):
         return k(st2, self.ops[n])
       if kd == "stop":
         return I.raise_exc(st2, ctx, StopIteration, None, node)
+      if kd == "exit":
+        # a task calling sys.exit() / interrupted: not an Exception subclass, must still only de-schedule that task
+        return I.raise_exc(st2, ctx, SystemExit, "task exits", node)
       return I.raise_exc(st2, ctx, ValueError, "task failed", node)
     return I.split(kind, st, go)
 
@@ -157,6 +160,7 @@ def _mk_cycle(n_tasks):
           _PLAN["op_result"] = (lambda kd=kd: True if kd == "op_again" else (_ for _ in ()).throw(KeyError("x")) if kd == "op_raises" else None)
           return ops[n]
         if kd == "stop": raise StopIteration()
+        if kd == "exit": raise SystemExit("task exits")
         raise ValueError("task failed")
       for t in tasks:
         t.execute = execute.__get__(t)
@@ -451,3 +455,91 @@ def _mk_select(n_tasks):
 
 for _n in (1, 2, 3):
   _mk_select(_n)
+
+
+# ---------------------------------------------------------------- Timer.run: the generator itself (added 2026-09-25)
+# The evaluator runs generators since 2026-09-25 (a suspended generator is the continuation of its `yield`): the harness
+# below plays the scheduler for ONE Timer task - it resumes the generator after each Sleep it yields, and between two
+# resumptions anybody may call cancel() - and states "timers fire once or recurrently until cancelled".
+from pox.lib.recoco.recoco import Timer
+
+
+class Fired(object):
+  """what the timer's callback records"""
+  def __init__(self):
+    self.calls = 0
+    self.rv = None
+
+
+def timer_callback(box, *args):
+  box.calls += 1
+  return box.rv
+
+
+def drive_timer(t, box, cancel_at, rounds):
+  """resume t.run() up to `rounds` times; cancel() is called while the timer sleeps for the cancel_at-th time (0: never).
+  returns (what was yielded each time, calls of the callback seen after each resumption, how the generator ended)"""
+  g = t.run()
+  yielded = []
+  calls = []
+  end = "running"
+  n = 0
+  while n < rounds:
+    try:
+      y = next(g)
+    except StopIteration:
+      end = "stopped"
+      break
+    n += 1
+    calls.append(box.calls)
+    if isinstance(y, Sleep):
+      yielded.append(("sleep", y._t))
+      if n == cancel_at:
+        t.cancel()
+    else:
+      yielded.append(("value", y))
+      if y is False:
+        end = "quit"
+        break
+  return (yielded, calls, end, box.calls)
+
+
+def _mk_timer(recurring):
+  def u(b):
+    now = b.real("now", 0, 1000000)
+    first = b.real("first_deadline", 0, 2000000)
+    interval = b.real("interval", 0, 100000) if recurring else 0
+    stoppable = b.bool("self_stoppable")
+    cancel_at = b.int("cancel_at", 0, 3)
+    rv = b.choice("callback_returns", [None, False, True])
+    box = b.raw_new(Fired, calls=0, rv=rv)
+    t = b.raw_new(Timer, _self_stoppable=stoppable, _cancelled=False, _recurring=recurring, _callback=timer_callback,
+                  _args=(box,), _kw=b.dict({}), _next=first, _interval=interval, _absolute_time=False, _started=True)
+    cs = {}
+    if b.mode == "sym":
+      cs = {"time:time": CallSpec("assumed", returns=lambda I, st, a, k: now, envelope="clock")}
+    else:
+      R.time.time = lambda: now
+    stops_itself = lambda: (stoppable is True or stoppable == True) and rv is False
+    def expect_fires():
+      # number of times the callback runs within 4 resumptions
+      if not recurring or stops_itself():
+        return 0 if cancel_at == 1 else 1
+      return 3 if cancel_at == 0 else cancel_at - 1
+    return Case(drive_timer, [t, box, cancel_at, 4], calls=cs, raises={}, ensures={
+      "first_it_sleeps_until_its_absolute_deadline": lambda res: res[0][0] == ("sleep", first),
+      "cancelled_while_pending_never_fires_again": lambda res: cancel_at == 0 or res[3] == min(cancel_at - 1, expect_fires()),
+      "fires_once_per_expiry_until_cancelled_or_stopped": lambda res: res[3] == expect_fires(),
+      "the_callback_runs_only_after_a_sleep_was_resumed": lambda res: res[1][0] == 0 and all([res[1][i] <= i for i in range(len(res[1]))]),
+      "a_recurring_timer_sleeps_one_interval_from_the_time_it_fired":
+        lambda res: all([res[0][i] == ("sleep", now + interval) or res[0][i] == ("value", False)
+                         for i in range(1, len(res[0]))]),
+      "it_ends_by_quitting": lambda res: res[2] == "quit" or (recurring and not stops_itself() and cancel_at == 0 and res[2] == "running"),
+    })
+  u.__name__ = "timer_%s_fires_until_cancelled" % ("recurring" if recurring else "one_shot")
+  u.bound = "one Timer task resumed up to 4 times; cancel() during the 1st..3rd sleep or never; callback returns None / False / True"
+  unit(P, target=RC + "Timer.run / Timer.cancel")(u)
+
+
+_mk_timer(False)
+_mk_timer(True)
